@@ -518,10 +518,15 @@ func famTyped(dir string, seed int64, tier string) {
 		back, eU := unmarshalInto(t, ts, nil)
 		repU.Evaluations++
 		known := hasPtrToNilPtr(v)
+		compKey := hasCompositeIfaceKey(v)
 		if classOf(eU) == "EPanic" {
 			repU.violate("C01", "unmarshal-panic", fmt.Sprintf("%v", eU), desc)
 		} else if eU != nil {
-			repU.violate("C01", "roundtrip-error", fmt.Sprintf("unmarshalling the marshalled stream into a zero %v failed: %v", t, eU), desc)
+			key := "roundtrip-error"
+			if compKey && classOf(eU) == "EBadMapKey" {
+				key = "iface-key-composite"
+			}
+			repU.violate("C01", key, fmt.Sprintf("unmarshalling the marshalled stream into a zero %v failed: %v", t, eU), desc)
 		} else if !equivValues(v, back) {
 			key := "roundtrip-not-equivalent"
 			if known {
@@ -546,12 +551,17 @@ func famTyped(dir string, seed int64, tier string) {
 		}
 		back2, eU2 := unmarshalInto(t, dec.toks, nil)
 		repU.Evaluations++
+		if compKey && classOf(eU2) == "EBadMapKey" {
+			continue // the recorded finding, already reported through the token route
+		}
 		if eU2 != nil || (!equivValues(v, back2) && !known) {
 			repU.violate("C01", "roundtrip-bytes", fmt.Sprintf("round trip through bytes (%s, %s) fails: %v", writerFlavours[wf], readerFlavours[rf], eU2), desc)
 		}
 	}
 	typedKeyOrder(repM, wM, r)
 	typedRegisteredMarshaler(repM, repU)
+	typedRegistrationOrder(repM, repU)
+	typedEmbedded(repU)
 	typedMore(dir, seed, tier, repU, wU)
 	typedTargeted(repU, wU, r)
 	typedEvolution(dir, seed, tier, repM, repU, wM, wU)
